@@ -32,6 +32,7 @@ fn placements(wc: usize, wr: usize, full: bool) -> Vec<(Recv, (usize, usize), Wi
         v.push((Recv::View, (wc + 2, wr + 2), ((1, 1), (1 + wc, 1 + wr))));
         v.push((Recv::ThinView, (wc + 3, wr + 1), ((2, 0), (2 + wc, wr))));
         v.push((Recv::Nested, (wc + 3, wr + 3), ((2, 1), (2 + wc, 1 + wr))));
+        v.push((Recv::Nested3, (wc + 4, wr + 4), ((2, 2), (2 + wc, 2 + wr))));
         if full {
             // touching edges
             v.push((Recv::View, (wc + 1, wr + 1), ((0, 0), (wc, wr))));
@@ -544,7 +545,7 @@ pub fn run_c04(ctx: &mut Ctx) {
             if wc == 0 || wr == 0 || (wc == pc && wr == pr) {
                 continue; // need a proper, non-empty sub-rectangle
             }
-            for recv in [Recv::View, Recv::Nested, Recv::ThinView] {
+            for recv in [Recv::View, Recv::Nested, Recv::Nested3, Recv::ThinView] {
                 if !ctx.case(|| format!("C04 recv={:?} parent={}x{} win={:?}", recv, pc, pr, win)) {
                     if ctx.done() {
                         return;
